@@ -247,6 +247,10 @@ def judge(ck, s):
         on_disk = s['fs1']['csv'] == 'R' or s['fs1']['bak'] == 'R' or s['fs1']['bak1'] == 'R' or s['fs1']['rules'] in ('M', 'U')
         if s['eff1'] in ('Empty', 'P') and on_disk:
             bad.append(('NeverEmptyWhileRulesExist', 'tally up classifies as %s while the rules are on disk' % s['eff1']))
+        # "at no point": the state the re-run leaves behind counts as well (a re-run that adopts a cut-off file and retires the CSV)
+        on_disk2 = s['fs2']['csv'] == 'R' or s['fs2']['bak'] == 'R' or s['fs2']['bak1'] == 'R' or s['fs2']['rules'] in ('M', 'U')
+        if s['mode'] != 'clean' and s['eff2'] in ('Empty', 'P') and on_disk2 and not (s['eff1'] in ('Empty', 'P') and on_disk):
+            bad.append(('NeverEmptyWhileRulesExist', 'after re-running the command tally up classifies as %s while the rules are on disk' % s['eff2']))
         if s['mode'] == 'clean' and s['eff1'] != s['eff0']:
             bad.append(('DoneSame', 'the command completed and classification changed %s -> %s' % (s['eff0'], s['eff1'])))
         elif s['eff1'] != s['eff0'] and s['eff2'] != s['eff0']:
